@@ -253,7 +253,7 @@ BUILTIN_C = {
     'bool': '_Bool', 'long': 'I_t', 'unsigned long': 'U_t', 'int': 'int', 'unsigned int': 'unsigned int',
     'double': 'double', 'float': 'float', 'char': 'char', 'unsigned char': 'unsigned char', 'signed char': 'signed char',
     'short': 'short', 'unsigned short': 'unsigned short', 'void': 'void', 'long long': 'long long',
-    'unsigned long long': 'unsigned long long', 'long double': 'double',
+    'unsigned long long': 'unsigned long long', 'long double': 'double', 'std::nullptr_t': 'void *', 'nullptr_t': 'void *',
 }
 BUILTIN_ABBR = {
     'bool': 'b', 'long': 'I', 'unsigned long': 'U', 'int': 'i', 'unsigned int': 'u', 'double': 'd', 'char': 'c',
@@ -576,6 +576,8 @@ class Emitter:
             self.queue.append(m)
 
     def run(self):
+        for ts in self.opts.get('force_types', ()):
+            self.ctype(self.canon(parse_type(ts)))
         while self.queue:
             m = self.queue.pop(0)
             if m in self.funcs_out:
@@ -666,6 +668,9 @@ class Emitter:
             if self.mangled_of_cname.get(cname) in self.funcs_out and self.funcs_out[self.mangled_of_cname[cname]]:
                 continue
             c = contracts.get(cname)
+            if c and ext.get('ret') == '_Bool':
+                # a havocked _Bool must be a legal bool (0/1), as every real C++ bool is
+                c += '\n__CPROVER_ensures(__CPROVER_return_value == 0 || __CPROVER_return_value == 1)'
             protos.append(ext['proto'] + ('\n' + c if c else '') + ';')
         for m in self.func_order:
             fo = self.funcs_out[m]
@@ -1588,6 +1593,10 @@ class FuncEmitter:
                 fty = em.ty_of(f['type'], f.get('_scope', []))
                 have = [repr(Ty('name', x.strip_ref().name, x.strip_ref().args)) for x in fty.params if x.strip_ref().kind == 'name']
                 if have == want and len(fty.params) == len(args):
+                    return self.call_function(m, ftu, f, args, None)
+                pn = [c for c in f.get('inner', []) if c.get('kind') == 'ParmVarDecl']
+                if len(args) < len(fty.params) and have[:len(args)] == want and all(
+                        any(not x.get('kind', '').endswith('Attr') for x in p.get('inner', [])) for p in pn[len(args):]):
                     return self.call_function(m, ftu, f, args, None)
             brk('%s: no constructor of %s for emplace args %s' % (self.f.get('name'), vt.name, want))
         m = em.models.lookup(em, vt)
